@@ -134,6 +134,10 @@ let err_code = function
   | EUnpackEntry -> "unpack-key-value-entry"
   | ESharedNotZero -> "corruption-shared-not-zero"
 
+(* env C12_AGAIN=n: after an error keep calling next() n more times and print what comes *)
+let again_n = match Sys.getenv_opt "C12_AGAIN" with Some s -> (try int_of_string s with _ -> 0) | None -> 0
+let rec nat_of_int i = if i = 0 then O else S (nat_of_int (i - 1))
+
 let split_nonempty c s = List.filter (fun x -> x <> "") (String.split_on_char c s)
 
 (* number of leading batches whose concatenated entries equal `es` exactly *)
@@ -217,11 +221,17 @@ let run_case (line : string) : string =
       (split_nonempty ',' muts);
     let n = if cut = "-" then Array.length a else min (int_of_string cut) (Array.length a) in
     let f = Array.to_list (Array.sub a 0 n) in
-    let es, e = log_read crc32c f in
+    let (es, e), ag = log_read_again crc32c f (nat_of_int again_n) in
     let j = prefix_j ok_batches es in
     Printf.sprintf "n=%d j=%s d=%s o=%s" (List.length es) j
       (if j = "?" || raw then Printf.sprintf "%016Lx" (fnv_entries es) else "-")
-      (match e with REnd -> "end" | RErr e -> "err:" ^ err_code e | RFuel -> "FUEL")
+      ((match e with REnd -> "end" | RErr e -> "err:" ^ err_code e | RFuel -> "FUEL")
+       ^ (match e with
+          | RErr _ when again_n > 0 ->
+              "+again[" ^ String.concat "," (List.map (function
+                | AEntry x -> Printf.sprintf "entry(klen=%d,ts=%Lu)" (List.length x.e_key) (int64_of_n x.e_ts)
+                | AEnd -> "end" | AErr e -> "err:" ^ err_code e | AFuel -> "FUEL") ag) ^ "]"
+          | _ -> ""))
   in
   let rs = List.map do_read (split_nonempty ';' reads) in
   String.concat " | " ([wout; fdesc] @ rs)
